@@ -25,7 +25,7 @@ Go ↔ model:
   full channel ↔ `Exec.blocked`, `close(updates)` ↔ `Exec.closed`
 * `ctx.Err() != nil` of the thread's context ↔ `State.cancelled`
 Ghost (not in the Go code, used by the theorems): `Exec.id/emitted/received`,
-`State.retired` (every goroutine the client no longer references),
+`State.retired` (every goroutine the client no longer references), `State.maxSync`,
 `State.lastReply`, `State.log`.
 
 Times are `Nat` seconds (the code only compares times and adds one minute).
@@ -159,6 +159,8 @@ structure State where
   req : ReqState
   mayThink : Option Nat
   nextSync : Nat
+  /-- ghost: the largest `nextSynchronizationAt` the client has ever held -/
+  maxSync : Nat
   cur : Option Exec
   retired : List Exec
   nextId : Nat
@@ -170,7 +172,7 @@ deriving Repr, Inhabited
 /-- `NewBuildClient` at clock time `t0`. -/
 def init (t0 : Nat) : State :=
   { now := t0, cancelled := false, req := .idle, mayThink := none, nextSync := t0,
-    cur := none, retired := [], nextId := 0, pc := .top, lastReply := none, log := [] }
+    maxSync := t0, cur := none, retired := [], nextId := 0, pc := .top, lastReply := none, log := [] }
 
 def execLive (e : Exec) : Nat := if e.closed then 0 else 1
 
@@ -314,7 +316,7 @@ def reply (s : State) (r : Reply) : Option State :=
     | .rpcError => some (retRun s1 false true)
     | .reply none _ => some (retRun s1 false true)
     | .reply (some ts) d =>
-      let s2 := { s1 with nextSync := ts }
+      let s2 := { s1 with nextSync := ts, maxSync := max s1.maxSync ts }
       match d with
       | .execute (.ok dg) => some (stopThen s2 (.start dg))
       | .execute _ => some (retRun s2 false true)
